@@ -58,7 +58,7 @@ def run(tier, seed):
     ev = {"level": "model_checking",
           "coverage": {"states": stA, "transitions": stT, "traces_validated_against_impl": R["traces"],
                        "steps_validated": R["steps"], "exhaustive": False,
-                       "bounds": {"flag_sets": 28, "formats": ["json", "xml"],
+                       "bounds": {"flag_sets": 29, "formats": ["json", "xml"],
                                   "document_runs": [dict(mode=m, depth=d, extras=e, kinds=len(k)) for (m, d, e, k) in runs],
                                   "corpus_calls": len(ks), "corpus_files": {"json": 398, "xml": 45},
                                   "mutations": ["reorder", "wrap", "recarr", "rename", "tobundle"]},
